@@ -88,6 +88,9 @@ Section NoHalt.
   Lemma nohalt_lexists (p : str) : nohalt (lexists a p).
   Proof. exact (nohalt_lexists_any a V tag rh wh p HFa). Qed.
 
+  Lemma nohalt_remove_if_symlink (p : str) : nohalt (remove_if_symlink a p).
+  Proof. unfold remove_if_symlink. nh. Qed.
+
   Lemma nohalt_chown_to (info : finfo) (p : str) : nohalt (chown_to a info p).
   Proof. unfold chown_to. nh. Qed.
 
@@ -238,6 +241,42 @@ Section FRemoval.
     apply (try_rm_stepF s0 s' (D0 ++ done) w1 w2 p HR1 Hne Hnlp (Hna p Hin)); [| exact Hrun1].
     intros q n0 Hq Hanc. exact (Hord done p todo q n0 El Hq Hanc).
   Qed.
+  (** [removeIfSymlink] where no link is: one Lstat; a refusal is not "not found" *)
+  Lemma remove_if_symlink_strict (T : fstag -> Prop) (I : world -> Prop) (wq : world) (p : str) :
+    fcall T (a_lstat a p) -> quiet wq -> swf (V wq) -> snolinkpar (V wq) p ->
+    (forall n, V wq !! p = Some n -> node_kind n <> KLink) -> I wq ->
+    fstrict T I (remove_if_symlink a p) wq fl.
+  Proof.
+    intros Hm Hq Hwf Hnlp Hnl HI. unfold remove_if_symlink.
+    destruct (fstrict_call T I (a_lstat a p) wq fl Hm Hq HI)
+      as [(r & w1 & Hrun & Hn & Hq1 & Hrunf & Hsp) | (e & w' & Hrun & Hh & Hrest)].
+    - assert (Htry : exists x, try_ (a_lstat a p) wq = (MOk x, w1) /\
+                               try_ (a_lstat a p) (set_faults wq fl) = (MOk x, set_faults w1 fl) /\
+                               match x with
+                               | Ok fi => fi_kind fi <> KLink
+                               | Err e => is_not_found e = true
+                               end).
+      { unfold try_. rewrite Hrun, Hrunf. destruct (V wq !! p) as [n|] eqn:Hp.
+        - destruct (law_lstat_some _ _ _ _ _ _ _ _ _ HLa wq p n Hq Hwf Hnlp Hp)
+            as (fi & (w2 & Hrun2 & _) & Him & _).
+          rewrite Hrun in Hrun2. injection Hrun2 as -> _.
+          exists (Ok fi). split; [reflexivity | split; [reflexivity |]].
+          rewrite (proj1 Him). exact (Hnl n eq_refl).
+        - destruct (law_lstat_none _ _ _ _ _ _ _ _ _ HLa wq p Hq Hwf Hnlp Hp)
+            as (e & w2 & Hrun2 & Hnf & _).
+          rewrite Hrun in Hrun2. injection Hrun2 as -> _.
+          exists (Err e). split; [reflexivity | split; [reflexivity | exact Hnf]]. }
+      destruct Htry as (x & Htq & Htf & Hx).
+      apply fstrict_bind_ok with (w1 := w1) (a := x); [exact Htq | |].
+      + left. exists (MOk x), w1.
+        split; [exact Htq | split; [discriminate | split; [exact Hq1 | split; [exact Htf | exact Hsp]]]].
+      + destruct x as [fi | e].
+        * destruct (fi_kind fi); [apply fstrict_ret; exact Hq1 | apply fstrict_ret; exact Hq1 |
+                                  contradiction Hx; reflexivity].
+        * rewrite Hx. apply fstrict_ret. exact Hq1.
+    - right. exists e, w'. unfold bind, try_. rewrite Hrun. rewrite (proj2 Hh).
+      split; [reflexivity | split; [exact Hh | exact Hrest]].
+  Qed.
 End FRemoval.
 
 (* ------------------------------------------------------------------ *)
@@ -288,6 +327,8 @@ Section FRollback.
     destruct r2 as [fi0 | e]; [| nh].
     apply nohalt_bind; [destruct (fi_kind fi0); nh | intros r3].
     destruct r3 as [u | e]; [| nh].
+    apply nohalt_bind; [apply nohalt_try; apply (nohalt_remove_if_symlink base Vb tagb rhb whb HFb) | intros r3b].
+    destruct r3b as [u2 | e]; [| nh].
     apply nohalt_bind; [apply nohalt_try; apply Hcf | intros r4]. nh.
   Qed.
 
@@ -329,23 +370,37 @@ Section FRollback.
     Lemma dir_stepF (R : list str) (w w' : world) (p : str) (fi : finfo) :
       ProgF R w -> infos !! p = Some (Some fi) -> p <> s_root -> fi_kind fi = KDir -> ~ In p R ->
       (forall a, In a (ancestors p) -> a <> s_root -> In a R) ->
-      copy_dir base p fi w = (MOk tt, w') -> ProgF (R ++ [p]) w'.
+      (remove_if_symlink base p ;;; copy_dir base p fi) w = (MOk tt, w') -> ProgF (R ++ [p]) w'.
     Proof.
-      intros (Hc & Hf & HP) Hi Hne Hk Hnin Hanc Hrun.
+      intros (Hc & Hf & HP0) Hi Hne Hk Hnin Hanc Hrun.
       destruct (dir_step base Vb Vk tnb accb rhb whb hid anc B0 HLb HwfB Hloc w0 Hinv s1 Hs1_keep
-                  R (unfault w) p fi HP Hi Hne Hk Hnin Hanc) as (w2 & Hrun2 & HP2).
+                  R (unfault w) p fi HP0 Hi Hne Hk Hnin Hanc) as (w2 & Hrun2 & HP2).
       destruct (some_orig Vb Vk B0 w0 Hinv p fi Hi) as (n0 & Hn0 & Him).
-      pose proof (prog_sdirect Vb Vk B0 HwfB w0 Hinv s1 R (unfault w) p fi HP Hi Hanc) as Hdir.
       destruct (info_ids_nonneg fi n0 Him) as [Hu Hg].
+      (* removeIfSymlink: the entry, if there is one, is a directory *)
+      pose proof HP0 as (Hq0 & Hwf0 & _ & _ & _).
+      pose proof (sdirect_snolinkpar _ _ (prog_sdirect Vb Vk B0 HwfB w0 Hinv s1 R (unfault w) p fi HP0 Hi Hanc)) as Hnlp0.
+      assert (Hnl0 : forall n, Vb (unfault w) !! p = Some n -> node_kind n <> KLink).
+      { intros n Hp. rewrite (prog_kind Vb Vk B0 w0 Hinv s1 Hs1_keep R (unfault w) p fi n HP0 Hnin Hi Hp), Hk. discriminate. }
+      destruct (remove_if_symlink_nolink base Vb Vk tnb accb rhb whb hid anc HLb (unfault w) p Hq0 Hwf0 Hnlp0 Hnl0)
+        as (wr & Hris & HVr & Hsrr).
+      pose proof (Prog_read Vb Vk B0 w0 s1 R (unfault w) wr HP0 (quiet_same_rest Vk _ wr Hq0 Hsrr) HVr (proj1 Hsrr)) as HP.
+      pose proof (prog_sdirect Vb Vk B0 HwfB w0 Hinv s1 R wr p fi HP Hi Hanc) as Hdir.
       pose proof HP as (Hq & Hwf & HVk & _ & _).
-      assert (Hcase : Vb (unfault w) !! p = None \/ sdir (Vb (unfault w)) p).
-      { destruct (Vb (unfault w) !! p) as [n|] eqn:Hp; [right | left; reflexivity].
-        pose proof (prog_kind Vb Vk B0 w0 Hinv s1 Hs1_keep R (unfault w) p fi n HP Hnin Hi Hp) as Hkn. rewrite Hk in Hkn.
+      assert (Hcase : Vb wr !! p = None \/ sdir (Vb wr) p).
+      { destruct (Vb wr !! p) as [n|] eqn:Hp; [right | left; reflexivity].
+        pose proof (prog_kind Vb Vk B0 w0 Hinv s1 Hs1_keep R wr p fi n HP Hnin Hi Hp) as Hkn. rewrite Hk in Hkn.
         destruct n as [m | m c | m t]; simpl in Hkn; try discriminate Hkn.
         exists m. exact Hp. }
-      pose proof (copy_dir_strict base Vb Vk tnb accb rhb whb hid anc tagb HLb HFb fl (fun _ => True) (unfault w) p fi
-                    Hq Hwf Hdir Hne Hk Hu Hg Hcase I (fun _ => I)
-                    (orig_not_hid hid anc B0 Hloc p n0 Hn0)) as Hst.
+      assert (Hst : fstrict Tany (fun _ => True) (remove_if_symlink base p ;;; copy_dir base p fi) (unfault w) fl).
+      { eapply fstrict_bind_ok; [exact Hris | |].
+        - exact (remove_if_symlink_strict base Vb Vk tnb accb rhb whb hid anc HLb fl Tany (fun _ => True) (unfault w) p
+                   (fcall_any_tag tagb _ (flaw_lstat _ _ _ _ _ HFb p)) Hq0 Hwf0 Hnlp0 Hnl0 I).
+        - eapply fstrict_mono;
+            [| exact (copy_dir_strict base Vb Vk tnb accb rhb whb hid anc tagb HLb HFb fl (fun _ => True) wr p fi
+                        Hq Hwf Hdir Hne Hk Hu Hg Hcase I (fun _ => I)
+                        (orig_not_hid hid anc B0 Hloc p n0 Hn0))].
+          intros x _. exact I. }
       destruct (strict_ok _ _ _ _ _ tt w' Hst ltac:(rewrite (lw_of w Hf); exact Hrun)) as (w3 & Hq3 & _ & -> & _).
       rewrite Hrun2 in Hq3. injection Hq3 as <-. exact (ProgF_lift _ w2 HP2).
     Qed.
@@ -383,20 +438,29 @@ Section FRollback.
       pose proof (quiet_same_rest Vb wa wb Hqa Hsrb) as Hqb.
       pose proof (Prog_read Vb Vk B0 w0 s1 R wa wb HPa Hqb (proj1 Hsrb) HVkb) as HPb.
       assert (Hk2 : fi_kind fi2 = KFile) by exact (proj1 Him2).
-      pose proof HPb as (_ & Hwfb & HVkb0 & _ & _).
-      assert (Hwfkb : swf (Vk wb)) by (rewrite HVkb0; exact Hwfk0).
-      assert (Hpkb : Vk wb !! p = Some (File m0 c0)) by (rewrite HVkb0; exact Hnk).
-      pose proof (prog_sdirect Vb Vk B0 HwfB w0 Hinv s1 R wb p fi HPb Hi Hanc) as Hdir.
-      assert (Hcase : Vb wb !! p = None \/ exists m1 c1, Vb wb !! p = Some (File m1 c1)).
-      { destruct (Vb wb !! p) as [n|] eqn:Hp; [right | left; reflexivity].
-        pose proof (prog_kind Vb Vk B0 w0 Hinv s1 Hs1_keep R wb p fi n HPb Hnin Hi Hp) as Hkn. rewrite Hk in Hkn.
+      (* removeIfSymlink on the base: the entry, if there is one, is a regular file *)
+      pose proof HPb as (_ & Hwfb1 & _ & _ & _).
+      pose proof (sdirect_snolinkpar _ _ (prog_sdirect Vb Vk B0 HwfB w0 Hinv s1 R wb p fi HPb Hi Hanc)) as Hnlpb.
+      assert (Hnlb : forall n, Vb wb !! p = Some n -> node_kind n <> KLink).
+      { intros n Hp. rewrite (prog_kind Vb Vk B0 w0 Hinv s1 Hs1_keep R wb p fi n HPb Hnin Hi Hp), Hk. discriminate. }
+      destruct (remove_if_symlink_nolink base Vb Vk tnb accb rhb whb hid anc HLb wb p Hqb Hwfb1 Hnlpb Hnlb)
+        as (wr & Hris & HVr & Hsrr).
+      pose proof (quiet_same_rest Vk wb wr Hqb Hsrr) as Hqr.
+      pose proof (Prog_read Vb Vk B0 w0 s1 R wb wr HPb Hqr HVr (proj1 Hsrr)) as HPr.
+      pose proof HPr as (_ & Hwfb & HVkb0 & _ & _).
+      assert (Hwfkb : swf (Vk wr)) by (rewrite HVkb0; exact Hwfk0).
+      assert (Hpkb : Vk wr !! p = Some (File m0 c0)) by (rewrite HVkb0; exact Hnk).
+      pose proof (prog_sdirect Vb Vk B0 HwfB w0 Hinv s1 R wr p fi HPr Hi Hanc) as Hdir.
+      assert (Hcase : Vb wr !! p = None \/ exists m1 c1, Vb wr !! p = Some (File m1 c1)).
+      { destruct (Vb wr !! p) as [n|] eqn:Hp; [right | left; reflexivity].
+        pose proof (prog_kind Vb Vk B0 w0 Hinv s1 Hs1_keep R wr p fi n HPr Hnin Hi Hp) as Hkn. rewrite Hk in Hkn.
         destruct n as [m | m c | m t]; simpl in Hkn; try discriminate Hkn.
         exists m, c. reflexivity. }
       destruct (copy_file_spec base backup Vb Vk tnb tnk accb acck rhb rhk whb whk hid nohid anc nohid HLb HLk
-                  wb p fi h p m0 c0 Hqb Hwfb Hwfkb Hdir Hk Hu Hg Hcase Hrh Hpkb (Hsmall p m0 c0 Hn0)
+                  wr p fi h p m0 c0 Hqr Hwfb Hwfkb Hdir Hk Hu Hg Hcase Hrh Hpkb (Hsmall p m0 c0 Hn0)
                   (orig_not_hid hid anc B0 Hloc p _ Hn0))
         as (wc & m' & Hcp & (Hsrc & Hwfc & Heqvc) & Hpc & Hmeta & Hmt).
-      pose proof (quiet_same_rest Vk wb wc Hqb Hsrc) as Hqc.
+      pose proof (quiet_same_rest Vk wr wc Hqr Hsrc) as Hqc.
       destruct (law_hclose_r _ _ _ _ _ _ _ _ _ HLk wc h p 0%nat Hqc Hrh) as (wd' & Hclose & HVkd & Hsrd).
       (* the run without plan ends in [wd'] *)
       assert (Ewd : wd' = wd).
@@ -406,7 +470,8 @@ Section FRollback.
           rewrite (bind_ok _ _ wa wb (Ok fi2) (try_ok _ wa wb fi2 Hstat)). cbv beta iota.
           rewrite Hk2.
           rewrite (bind_ok _ _ wb wb (Ok tt) eq_refl). cbv beta iota.
-          rewrite (bind_ok _ _ wb wc (Ok tt) (try_ok _ wb wc tt Hcp)).
+          rewrite (bind_ok _ _ wb wr (Ok tt) (try_ok _ wb wr tt Hris)). cbv beta iota.
+          rewrite (bind_ok _ _ wr wc (Ok tt) (try_ok _ wr wc tt Hcp)).
           rewrite (bind_ok _ _ wc wd' (Ok tt) (try_ok _ wc wd' tt Hclose)).
           reflexivity. }
         rewrite Hrund in E. injection E as ->. reflexivity. }
@@ -429,14 +494,23 @@ Section FRollback.
       rewrite Hk2 in Hrun. rewrite (bind_ok _ _ (set_faults wb fl) (set_faults wb fl) (Ok tt) eq_refl) in Hrun.
       cbv beta iota in Hrun.
       destruct (fstrict_cases _ _ _ _ _
+                  (remove_if_symlink_strict base Vb Vk tnb accb rhb whb hid anc HLb fl Tany (fun _ => True) wb p
+                     (fcall_any_tag tagb _ (flaw_lstat _ _ _ _ _ HFb p)) Hqb Hwfb1 Hnlpb Hnlb I))
+        as [Hc2b | (e & wx & Hrunf & _ & Hcx & _)].
+      2:{ rewrite (bind_ok _ _ _ _ (Err e) (try_err _ _ _ e Hrunf)) in Hrun. cbv beta iota in Hrun.
+          destruct (try_hclose_any h wx Hcx) as (y & wy & Hcl & _).
+          rewrite (bind_ok _ _ _ _ y Hcl) in Hrun. discriminate Hrun. }
+      destruct (cleanrun_result _ wb fl _ wr Hc2b Hris) as (_ & _ & Hrunf2b & _).
+      rewrite (bind_ok _ _ _ _ (Ok tt) (try_ok _ _ _ tt Hrunf2b)) in Hrun. cbv beta iota in Hrun.
+      destruct (fstrict_cases _ _ _ _ _
                   (copy_file_strict base backup Vb Vk tnb tnk accb acck rhb rhk whb whk hid nohid anc nohid tagb HLb HLk HFb fl
-                     (fun _ => True) wb p fi h p m0 c0 Hqb Hwfb Hwfkb Hdir Hk Hu Hg Hcase Hrh Hpkb
+                     (fun _ => True) wr p fi h p m0 c0 Hqr Hwfb Hwfkb Hdir Hk Hu Hg Hcase Hrh Hpkb
                      (Hsmall p m0 c0 Hn0) I (fun _ _ _ => I) (orig_not_hid hid anc B0 Hloc p _ Hn0)))
         as [Hc3 | (e & wx & Hrunf & _ & Hcx & _)].
       2:{ rewrite (bind_ok _ _ _ _ (Err e) (try_err _ _ _ e Hrunf)) in Hrun.
           destruct (try_hclose_any h wx Hcx) as (y & wy & Hcl & _).
           rewrite (bind_ok _ _ _ _ y Hcl) in Hrun. discriminate Hrun. }
-      destruct (cleanrun_result _ wb fl _ wc Hc3 Hcp) as (_ & _ & Hrunf3 & _).
+      destruct (cleanrun_result _ wr fl _ wc Hc3 Hcp) as (_ & _ & Hrunf3 & _).
       rewrite (bind_ok _ _ _ _ (Ok tt) (try_ok _ _ _ tt Hrunf3)) in Hrun.
       destruct (try_hclose_any h (set_faults wc fl) (proj1 Hqc)) as (y & wy & Hcl & Hsimy & Hcy & Hfy & _).
       rewrite (bind_ok _ _ _ _ y Hcl) in Hrun. cbn [lift_res] in Hrun. unfold ret in Hrun. injection Hrun as <-.
@@ -531,16 +605,18 @@ Section FRollback.
     Lemma dirs_passF (w w' : world) :
       ProgF [] w ->
       collect_errs (fun p => match info_of_key infos p with
-                             | Some fi => copy_dir base p fi
+                             | Some fi => remove_if_symlink base p ;;; copy_dir base p fi
                              | None => fail EOther end) (sort_least lds) w = (MOk [], w') ->
       ProgF lds w'.
     Proof.
       intros HP Hrun.
       assert (HP' : ProgF (sort_least lds) w').
-      { apply (collect_errs_nilF (fun p => match info_of_key infos p with Some fi => copy_dir base p fi | None => fail EOther end)
+      { apply (collect_errs_nilF (fun p => match info_of_key infos p with Some fi => remove_if_symlink base p ;;; copy_dir base p fi | None => fail EOther end)
                  (fun done wx => ProgF done wx) (sort_least lds))
           with (todo := sort_least lds) (done := []) (w := w); [| | reflexivity | exact HP | exact (proj1 HP) | exact Hrun].
-        - intros p. destruct (info_of_key infos p); [apply (nohalt_copy_dir base Vb tagb rhb whb HFb) | apply nohalt_fail].
+        - intros p. destruct (info_of_key infos p); [| apply nohalt_fail].
+          apply nohalt_bind; [apply (nohalt_remove_if_symlink base Vb tagb rhb whb HFb) | intros u].
+          apply (nohalt_copy_dir base Vb tagb rhb whb HFb).
         - intros done p todo w1 w2 El HP1 _ Hrun1.
           assert (Hin : In p (sort_least lds)) by (rewrite El; apply in_or_app; right; left; reflexivity).
           apply isort_in in Hin. pose proof Hin as Hin'. apply in_k in Hin'.
@@ -733,12 +809,14 @@ Section FRollback.
     simpl app in He0. subst errs0.
     pose proof Hvc as (Hcc & Hfc & HVc & HVkc).
     set (frm := fun p : str => a_remove base p).
-    set (fds := fun p : str => match info_of_key infos p with Some fi => copy_dir base p fi | None => fail EOther end).
+    set (fds := fun p : str => match info_of_key infos p with Some fi => remove_if_symlink base p ;;; copy_dir base p fi | None => fail EOther end).
     set (ffs := fun p : str => match info_of_key infos p with Some fi => restore_file base backup p fi | None => fail EOther end).
     set (fls := fun p : str => match info_of_key infos p with Some fi => restore_symlink base backup p fi | None => fail EOther end).
     assert (Nrm : forall x, nohalt (frm x)) by (intros x; unfold frm; nh).
     assert (Nds : forall x, nohalt (fds x)).
-    { intros x. unfold fds. destruct (info_of_key infos x); [apply (nohalt_copy_dir base Vb tagb rhb whb HFb) | apply nohalt_fail]. }
+    { intros x. unfold fds. destruct (info_of_key infos x); [| apply nohalt_fail].
+      apply nohalt_bind; [apply (nohalt_remove_if_symlink base Vb tagb rhb whb HFb) | intros u].
+      apply (nohalt_copy_dir base Vb tagb rhb whb HFb). }
     assert (Nfs : forall x, nohalt (ffs x)).
     { intros x. unfold ffs. destruct (info_of_key infos x); [apply nohalt_restore_file | apply nohalt_fail]. }
     assert (Nls : forall x, nohalt (fls x)).
@@ -933,6 +1011,9 @@ Section SClean.
     intros [fi | e]; [apply sclean_ret |]. destruct (is_not_found e); [apply sclean_ret | apply sclean_fail].
   Qed.
 
+  Lemma sclean_remove_if_symlink (p : str) : sclean (remove_if_symlink a p).
+  Proof. unfold remove_if_symlink. sc. Qed.
+
   Lemma sclean_chown_to (info : finfo) (p : str) : sclean (chown_to a info p).
   Proof. unfold chown_to. sc. Qed.
 
@@ -989,6 +1070,8 @@ Section SCleanRollback.
     destruct r2 as [fi0 | e]; [| sc].
     apply sclean_bind; [destruct (fi_kind fi0); sc | intros r3].
     destruct r3 as [u | e]; [| sc].
+    apply sclean_bind; [apply sclean_try; apply (sclean_remove_if_symlink base Vb tagb rhb whb HFb) | intros r3b].
+    destruct r3b as [u2 | e]; [| sc].
     apply sclean_bind; [apply sclean_try; apply Hcf | intros r4]. sc.
   Qed.
 
@@ -1016,8 +1099,9 @@ Section SCleanRollback.
     intros [[[[errs0 rm] ds] fs] ls].
     apply sclean_bind; [apply sclean_collect_errs; intros p; sc | intros e1].
     apply sclean_bind.
-    { apply sclean_collect_errs. intros p. destruct (info_of_key infos p);
-        [apply (sclean_copy_dir base Vb tagb rhb whb HFb) | apply sclean_fail]. }
+    { apply sclean_collect_errs. intros p. destruct (info_of_key infos p); [| apply sclean_fail].
+      apply sclean_bind; [apply (sclean_remove_if_symlink base Vb tagb rhb whb HFb) | intros u].
+      apply (sclean_copy_dir base Vb tagb rhb whb HFb). }
     intros e2. apply sclean_bind.
     { apply sclean_collect_errs. intros p. destruct (info_of_key infos p);
         [apply sclean_restore_file | apply sclean_fail]. }
